@@ -150,7 +150,7 @@ func (ev *Eval) intBin(op string, t *wgen.Type, a, b Sc) Sc {
 			switch {
 			case y == 0:
 				if ev.constMode {
-					throw(ErrConst, "division by zero")
+					throwDefinite("division by zero")
 				}
 				r = scI32(x)
 			case x == math.MinInt32 && y == -1:
@@ -165,7 +165,7 @@ func (ev *Eval) intBin(op string, t *wgen.Type, a, b Sc) Sc {
 			switch {
 			case y == 0:
 				if ev.constMode {
-					throw(ErrConst, "modulo by zero")
+					throwDefinite("modulo by zero")
 				}
 				r = scI32(0)
 			case x == math.MinInt32 && y == -1:
@@ -206,7 +206,7 @@ func (ev *Eval) intBin(op string, t *wgen.Type, a, b Sc) Sc {
 		case "/":
 			if y == 0 {
 				if ev.constMode {
-					throw(ErrConst, "division by zero")
+					throwDefinite("division by zero")
 				}
 				r = scU32(x)
 			} else {
@@ -215,7 +215,7 @@ func (ev *Eval) intBin(op string, t *wgen.Type, a, b Sc) Sc {
 		case "%":
 			if y == 0 {
 				if ev.constMode {
-					throw(ErrConst, "modulo by zero")
+					throwDefinite("modulo by zero")
 				}
 				r = scU32(0)
 			} else {
@@ -252,7 +252,7 @@ func (ev *Eval) intBin(op string, t *wgen.Type, a, b Sc) Sc {
 			v = x * y
 		case "/":
 			if y == 0 {
-				throw(ErrConst, "division by zero")
+				throwDefinite("division by zero")
 			}
 			if x == math.MinInt64 && y == -1 {
 				throw(ErrConst, "division overflow")
@@ -260,7 +260,7 @@ func (ev *Eval) intBin(op string, t *wgen.Type, a, b Sc) Sc {
 			v = x / y
 		case "%":
 			if y == 0 {
-				throw(ErrConst, "modulo by zero")
+				throwDefinite("modulo by zero")
 			}
 			if x == math.MinInt64 && y == -1 {
 				throw(ErrConst, "modulo overflow")
@@ -293,7 +293,7 @@ func (ev *Eval) shift(op string, t *wgen.Type, a, b Sc) Sc {
 	ind := a.Ind || b.Ind || a.Tol > 0 || b.Tol > 0
 	if ev.constMode {
 		if n >= 32 {
-			throw(ErrConst, "shift amount >= 32")
+			throwDefinite("shift amount >= 32")
 		}
 	}
 	n &= 31
@@ -539,12 +539,12 @@ func (ev *Eval) convert(to *wgen.Type, from *wgen.Type, a Sc, implicit bool) Sc 
 		switch to.Kind {
 		case wgen.KI32:
 			if v < math.MinInt32 || v > math.MaxInt32 {
-				throw(ErrConst, "abstract-int %d not representable in i32", v)
+				throwDefinite("abstract-int %d not representable in i32", v)
 			}
 			out.B = uint64(uint32(int32(v)))
 		case wgen.KU32:
 			if v < 0 || v > math.MaxUint32 {
-				throw(ErrConst, "abstract-int %d not representable in u32", v)
+				throwDefinite("abstract-int %d not representable in u32", v)
 			}
 			out.B = uint64(uint32(v))
 		case wgen.KF32:
